@@ -159,7 +159,7 @@ def write_replay(chk, v):
 
 def replay(body, path):
     import tempfile
-    d = tempfile.mkdtemp(prefix='verif_extreplay_', dir='/dev/shm')
+    d = tempfile.mkdtemp(prefix='verif_extreplay_', dir=('/dev/shm' if __import__('os').path.isdir('/dev/shm') else None))
     try:
         evs, _, stats = run_pytest([body['nodeid']], os.path.join(d, 't.ndjson'), 3000, 20000)
         wd = tlc.workdir('extreplay_%d' % os.getpid())
